@@ -1176,14 +1176,114 @@ def psr_contract():
         return z3.Implies(M.RS_NONE(P, raw), z3.And(z3.Implies(is_addr, z3.And(nm == M.EMPTY, ad == raw)),
                                                     z3.Implies(z3.Not(is_addr), z3.And(nm == raw, ad == M.EMPTY))))
 
+    def result_maker(ex, st, ctx):
+        # call-site view (round 7, for the verified _parse_multi_recipients): None or an EmailAddress whose fields are NAMED by functions
+        # of the argument; the ensures clauses above then say what they are
+        raw = ctx.args["raw"].t
+        obj = ex.new_obj(st, "EmailAddress", {"name": VStr(M.PSR_NAME(raw)), "address": VStr(M.PSR_ADDR(raw))})
+        return [(M.PSR_NONE(raw), NONE), (z3.Not(M.PSR_NONE(raw)), obj)]
+
     return FnContract(
         target=f"{MSG}::_parse_single_recipient",
         params=[("raw", p_str())],
+        result_maker=result_maker,
         ensures=[("None-iff-blank", e_none), ("angle-form:-address-inside-brackets,-name-before", e_angle),
                  ("bare-address-or-name-only", e_bare)],
         raises=[],
         note="'Name <addr>' | '<addr>' | 'addr' | 'Name' | blank -> None (regex search assumed total, uninterpreted)",
     )
+
+
+RCPT_SEP = "[;,]"
+
+
+def pmr_contract():
+    """(round 7) _parse_multi_recipients on a STRING (the list form -- one recursive call per item, concatenated -- is outside this
+    contract's precondition): the pieces of re.split("[;,]", raw), each parsed by _parse_single_recipient (verified contract),
+    those that give a name or an address, in order.  Loop invariant with the counting function CNT_PSR (ground instances)."""
+    def split_of(st):
+        g = st.ghost.get("re_split_arg")
+        if g is None:
+            raise M.ShapeUnknown("the body did not split anything with re.split")
+        return g
+
+    def view(c):
+        r = seq_of(c.st, c.result, ("obj", "EmailAddress"))
+        if r is None:
+            raise M.ShapeUnknown("result of _parse_multi_recipients is not a list")
+        return r
+
+    def raw_of(c):
+        return c.args["raw"].t
+
+    def e_empty(c):
+        n, _el = view(c)
+        return z3.Implies(z3.Length(raw_of(c)) == 0, n == 0)
+
+    def e_split(c):
+        if not verifying(c, "::_parse_multi_recipients"):
+            return z3.BoolVal(True)
+        raw = raw_of(c)
+        g = c.st.ghost.get("re_split_arg")
+        if g is None:
+            return z3.Length(raw) == 0              # nothing was split: only right for the empty string
+        return z3.And(g[0] == z3.StringVal(RCPT_SEP), g[1] == raw)
+
+    def spec_ps(c):
+        if verifying(c, "::_parse_multi_recipients"):
+            g = c.st.ghost.get("re_split_arg")
+            if g is not None:
+                return g
+        return z3.StringVal(RCPT_SEP), raw_of(c)
+
+    def e_count(c):
+        raw = raw_of(c)
+        P, s = spec_ps(c)
+        n, _el = view(c)
+        return n == z3.If(z3.Length(raw) == 0, 0, M.CNT_PSR(P, s, M.RSPL_N(P, s)))
+
+    def items_body(st, el, P, s):
+        def body(k):
+            part = M.RSPL_AT(P, s, k)
+            nm, ad = addr_fields(st, el(M.CNT_PSR(P, s, k)))
+            return z3.Implies(M.psr_keep(P, s, k), z3.And(nm == M.PSR_NAME(part), ad == M.PSR_ADDR(part)))
+        return body
+
+    def e_items(c):
+        raw = raw_of(c)
+        P, s = spec_ps(c)
+        _n, el = view(c)
+        return z3.Implies(z3.Length(raw) > 0, forall(M.RSPL_N(P, s), items_body(c.st, el, P, s), "k!ri"))
+
+    def inv(lc):
+        P, s = split_of(lc.st)
+        n, el = built_list(lc, None, ("obj", "EmailAddress"))
+        i = lc.i
+        return M.ConjA([
+            ("count", n == M.CNT_PSR(P, s, i)),
+            ("order", forall(i, lambda k: z3.Implies(M.psr_keep(P, s, k), M.CNT_PSR(P, s, k) < M.CNT_PSR(P, s, i)), "k!ro",
+                             pattern=lambda k: M.CNT_PSR(P, s, k))),
+            ("items", forall(i, items_body(lc.st, el, P, s), "k!rj", pattern=lambda k: M.CNT_PSR(P, s, k))),
+        ], defs=[M.cnt_psr_def(P, s, i), M.cnt_psr_def(P, s, i + 1)])
+
+    def hyp(c):
+        raw = raw_of(c)
+        return M.cnt_psr_def(z3.StringVal(RCPT_SEP), raw, z3.IntVal(0))
+
+    c = FnContract(
+        target=f"{MSG}::_parse_multi_recipients",
+        params=[("raw", p_str())],
+        hyps=hyp,
+        ensures=[("no-recipients-for-an-empty-string", e_empty), ("the-string-itself-is-split-at-semicolons-and-commas", e_split),
+                 ("one-entry-per-piece-that-parses-to-a-name-or-an-address", e_count),
+                 ("entries-are-the-parsed-pieces-in-order", e_items)],
+        raises=[],
+        loops={"*": LoopSpec(inv=inv, label="recipients")},
+        note="[r for r in map(_parse_single_recipient, re.split('[;,]', raw)) if r and (r.name or r.address)] for a str; the list form "
+             "(MsOxMessage properties may be lists) is NOT covered: call sites in read_msg_format_mail keep the summarised view",
+    )
+    c.summary_at_call_sites = True
+    return c
 
 
 def hint_pattern(repo=None):
@@ -1320,6 +1420,20 @@ def read_msg_contract():
         # body is its text rendering, produced by a helper that is not specified here)
         return z3.Or(z3.And(bh.t == M.EMPTY, bp.t == STRIP(raw)), bh.t == raw)
 
+    def e_body_kind(c):
+        # (round 7) WHICH of the two cases applies is now specified: the body is the HTML body exactly when the VERIFIED
+        # _looks_like_html says so (its contract gives the call site the specified value).  Without that contract (helper renamed /
+        # pattern shape not recognised) the helper is summarised and this clause has nothing to say.
+        if c.ex.reg.get(f"{MSG}::_looks_like_html") is None:
+            return z3.BoolVal(True)
+        bp, bh = f(("body_plain",))(c), f(("body_html",))(c)
+        none, s_ = prop(c, "body")
+        raw = z3.If(z3.Or(none, z3.Length(s_) == 0), M.EMPTY, s_)
+        if not (isinstance(bp, VStr) and isinstance(bh, VStr)):
+            raise M.ShapeUnknown("bodies are not str values")
+        html = llh_spec(raw)
+        return z3.And(z3.Implies(html, bh.t == raw), z3.Implies(z3.Not(html), z3.And(bh.t == M.EMPTY, bp.t == STRIP(raw))))
+
     def e_atts(c):
         tag = helper_tag(c.st, f(("attachments",))(c))
         if len(tag[2]) != 1:
@@ -1336,7 +1450,7 @@ def read_msg_contract():
                  ("from_email-is-the-first-parsed-sender", e_from),
                  ("to_emails-from-the-To-property", e_rcpt("to_emails", "to")), ("to_cc-from-the-Cc-property", e_rcpt("to_cc", "cc")),
                  ("to_bcc-from-the-Bcc-property", e_rcpt("to_bcc", "bcc")),
-                 ("bodies-from-the-Body-property", e_body), ("attachments-from-the-attachment-storages-of-the-same-bytes", e_atts)],
+                 ("bodies-from-the-Body-property", e_body), ("html-body-iff-the-body-looks-like-html", e_body_kind), ("attachments-from-the-attachment-storages-of-the-same-bytes", e_atts)],
         raises=[Raises(FAMILY, sub=True, label="every failure arrives in the ExtractionError family")],
         note="field <- property mapping (dataflow); .msg is outside the RFC 5322 statement: totality is not claimed here",
     )
@@ -1346,6 +1460,7 @@ def contracts(reg):
     M.install(reg)
     out = []
     out.append(psr_contract())
+    out.append(pmr_contract())
     try:
         hint_pattern()
         out.append(llh_contract())
